@@ -210,7 +210,9 @@ def long_index_case(draw, mode):
     return {'kind': 'long_index', 'n': n, 'L': L, 'dt': dt, 'seed': draw(st.integers(0, 10 ** 6)),
             'negatives': (not dt.startswith('u')) and draw(st.booleans()), 'hot': draw(st.booleans()),
             'trailing': draw(st.sampled_from([[], [], [2]])), 'dtype': draw(st.sampled_from(['float32', 'float64'])) if mode == 'x64' else 'float32',
-            'unique_arg': draw(st.sampled_from([None, False]))}
+            'unique_arg': draw(st.sampled_from([None, False])),
+            # consecutive runs (a contiguous block of samples), possibly starting at a negative index and running past zero
+            'run': draw(st.sampled_from([None, None, None, 'inside', 'wrap', 'wrap']))}
 
 
 def strategy(tier, mode):
@@ -233,6 +235,13 @@ def _check_long(r, mode):
     if r['negatives']:
         neg = rng.random(L) < 0.3
         idx = np.where(neg, idx - n, idx)
+    if r.get('run') and n >= 64:
+        L = int(min(L, n, 64 + r['seed'] % 64))
+        signed = not r['dt'].startswith('u')
+        start = (-(1 + r['seed'] % (L - 1)) if (r['run'] == 'wrap' and signed) else r['seed'] % (n - L + 1))
+        idx = np.arange(start, start + L)
+        if int(np.abs(idx).max()) > np.iinfo(r['dt']).max:
+            idx = np.arange(0, L)
     idx = idx.astype(r['dt'])
     norm = np.asarray(idx, dtype=np.int64) % n
     shape = (n,) + tuple(r['trailing'])
@@ -254,6 +263,8 @@ def _check_long(r, mode):
     if z.shape != shape or not np.array_equal(z, acc):
         raise Violation('T-mv-value', f'op.T(y) != scatter-add for a long index array (L={L}, n={n}, {r["dt"]})')
     classes = ['long_index_array', 'index_dtype:' + r['dt']] + (['neg_or_repeated_array'] if r['negatives'] or L > n else [])
+    if r.get('run') and n >= 64:
+        classes.append('consecutive_run:' + r['run'])
     counts = np.bincount(norm, minlength=n).astype(np.float64)
     red = must_not_raise('reduce(P.T@P)', (op.T @ op).reduce)
     got = np.asarray(must_not_raise('PtP-mv', red.mv, jnp.asarray(x, dtype=r['dtype'])), dtype=np.float64)
